@@ -9,7 +9,7 @@ id=$1; diff=$2; demo=$3; sub=${4:-.}; shift 4 2>/dev/null || shift $#
 extra="$@"
 export GOFLAGS=-mod=mod GOPROXY=off GOSUMDB=off GOTOOLCHAIN=local
 wt=/tmp/ev-$$
-git -C /repo worktree add -q $wt HEAD || exit 9
+git -C /repo worktree add -q $wt ${REV:-HEAD} || exit 9
 trap 'git -C /repo worktree remove --force '$wt' >/dev/null 2>&1' EXIT
 name=$(basename $demo)
 # demo passes without the change?
